@@ -17,6 +17,7 @@ CONSTANTS
   MKeyAtoms = {%(mkeys)s}
   Enabled <- %(enabled)s
 VIEW View
+CONSTRAINT KeyLeavesSet
 """
 
 
@@ -71,9 +72,10 @@ def check_tree(prop, tier, seed, work, ops, props_in_model):
     results = []
     for name, consts in tree_models(tier):
         base = TREE_CFG % consts
-        mc = vf.run_tlc(work, "MC_TreeA", base + "INVARIANT TypeOK\n" + "".join("PROPERTY %s\n" % p for p in props_in_model),
-                        tag="mc" + name, coverage=(tier == "thorough"))
-        em = vf.run_tlc(work, "MC_TreeA", base + "ACTION_CONSTRAINT Emit\n", workers=1, tag="emit" + name)
+        # one run: TLC checks the model-level properties and emits every transition
+        mc = vf.run_tlc(work, "MC_TreeA", base + "INVARIANT TypeOK\n" + "".join("PROPERTY %s\n" % p for p in props_in_model)
+                        + "ACTION_CONSTRAINT Emit\n", tag="mc" + name)
+        em = mc
         states += mc["distinct"]
         trans += mc["states"]
         args = ["-in", em["out"], "-ops", ops, "-seed", str(seed), "-prop", prop, "-pkgs", ",".join(cfgs)]
@@ -99,9 +101,61 @@ def check_tree(prop, tier, seed, work, ops, props_in_model):
     return cov, tot["violations"]
 
 
+GNMI_CFG = """SPECIFICATION Spec
+CONSTANTS
+  Vals = {%(vals)s}
+  KeyAtoms = {%(keys)s}
+  MKeyAtoms = {%(mkeys)s}
+  Enabled <- %(enabled)s
+  MaxOps = %(maxops)s
+  MaxDocLeaves = %(maxdoc)s
+VIEW View
+CONSTRAINT KeyLeavesSet
+CHECK_DEADLOCK FALSE
+"""
+
+
+def check_gnmiset(prop, tier, seed, work, modes, model_props):
+    """C13 / C31: GnmiSet model (requests executed operation by operation vs the reference
+    semantics on path->value maps); every completed request is replayed on the real
+    UnmarshalSetRequest / Unmarshal."""
+    cfgs = ["us", "cw"] if tier == "quick" else ["us", "uw", "cs", "cw", "co"]
+    h, bindir = vf.prepare(work, cfgs)
+    states = trans = 0
+    results = []
+    for name, consts in tree_models(tier):
+        consts = dict(consts, maxops=1, maxdoc=2)
+        base = GNMI_CFG % consts
+        mc = vf.run_tlc(work, "MC_GnmiSet", base + "INVARIANT TypeOK\n" + "".join("PROPERTY %s\n" % p for p in model_props)
+                        + "ACTION_CONSTRAINT Emit\n", tag="mc" + name, timeout=900)
+        em = mc
+        states += mc["distinct"]
+        trans += mc["states"]
+        args = ["-in", em["out"], "-modes", modes, "-seed", str(seed), "-prop", prop, "-pkgs", ",".join(cfgs)]
+        if tier == "quick":
+            args += ["-limit", "6"]
+        r = run_replay(bindir, h, "setreq", args, work, name)
+        if r["evaluated"] == 0:
+            raise Infra("replay of slice %s evaluated nothing" % name)
+        results.append(r)
+    tot = merge_results(results)
+    for d in tot["drift"][:20]:
+        log("SPEC-DRIFT:", d)
+    cov = dict(states=states, transitions=trans, traces_validated_against_impl=tot["evaluated"],
+               samples=tot["samples"][:4], exhaustive=(tier == "thorough"), skipped_unconcretisable=tot["skipped"],
+               distinct_requests=tot["distinct"], counters=tot["counters"], configurations=cfgs, spec_drift=tot["drift"][:20],
+               explanation="TLC executes every single-operation SetRequest (delete / replace / update of leaf, leaf-list, container, "
+                           "list entry, whole list, variant root; scalar, leaf-list and JSON payloads assigning up to 2 leaves) "
+                           "from every reachable tree of slices A, B and M, operation by operation, and checks the result against "
+                           "the reference semantics on the path->value map; each completed request is replayed on the real code.")
+    return cov, tot["violations"]
+
+
 PIPELINES = {
     "C10": lambda tier, seed, work: check_tree("C10", tier, seed, work, "set,setll", ["SetGetFrame"]),
     "C12": lambda tier, seed, work: check_tree("C12", tier, seed, work, "delete", ["DeleteExact"]),
+    "C13": lambda tier, seed, work: check_gnmiset("C13", tier, seed, work, "setreq", ["SetSemantics"]),
+    "C31": lambda tier, seed, work: check_gnmiset("C31", tier, seed, work, "unmarshal,unmarshal-extra,unmarshal-extra-ignored", ["MergeFrame"]),
 }
 
 ASSUME = ["the independent projector/builder in harness/internal/abs (reflection over struct tags) is correct; it is self-tested on every case (Project(Build(t)) = t)",
